@@ -147,12 +147,12 @@ class Crc(Case):
             yield dict(kind='crc32', n=n)
         for P, w in POLYS:
             for n in (0, 1, 2, 5):
-                yield dict(kind='gen', P=P, w=w, n=n)
+                yield dict(kind='gen', P=P, w=w, n=n, fin='sym')
 
     def mk(self, shape, src):
         if shape['kind'] == 'crc32':
             return (src.bytes('d', shape['n']),)
-        return (src.bytes('d', shape['n']), src.int('init', shape['w']), src.int('fin', shape['w']))
+        return (src.bytes('d', shape['n']), src.int('init', shape['w']), src.int('fin', shape['w']) if shape['fin'] == 'sym' else shape['fin'])
 
     def impl(self, shape, args):
         import crysp.crc as C
@@ -176,14 +176,14 @@ class Fix(Case):
     prop = 'C15'
     name = 'C15.fix'
     timeout_s = 900
-    bounds = ('crc32_fix(data,t) and crc32_fix_pos(data,pos,t) with SYMBOLIC data and SYMBOLIC 32-bit target: |data| 4..8 (quick) / 4..12 (thorough), every pos 0..|data|-4: same length, '
+    bounds = ('crc32_fix(data,t) and crc32_fix_pos(data,pos,t) with SYMBOLIC data and SYMBOLIC 32-bit target: |data| 4..8 (quick) / 4..12 (thorough), every pos 0..|data|-4 (quick: 4 positions for |data|>6): same length, '
               'bytes outside the 4-byte window equal to the input, crc32 of the result (bitwise model) == t')
 
     def shapes(self, tier):
         for n in range(4, 9 if tier == 'quick' else 13):
             yield dict(kind='fix', n=n)
             for pos in range(0, n - 3):
-                if tier == 'quick' and n > 6 and pos not in (0, 1, n - 4):
+                if tier == 'quick' and n > 6 and pos not in (0, 1, n - 5, n - 4):
                     continue
                 yield dict(kind='pos', n=n, pos=pos)
 
